@@ -22,7 +22,8 @@ from mc.core import Result
 ID = "C17"
 TECHNIQUE = ("exhaustive enumeration of all Gram matrices B B^T over {-1,0,1} (n<=3 quick, 4 thorough) x diagonal "
              "scalings x thresholds on the three modified-Cholesky routines; jvp vs central differences on every "
-             "symmetric basis tangent; molecule catalogue for the shell-chunked routine")
+             "symmetric basis tangent; molecule catalogue x thresholds x buffer sizes (cmax 1..3 and default: 'raises, or "
+             "returns a Gram matrix within the threshold') for the shell-chunked routine; integer / single-precision inputs")
 
 THRESHOLDS = [1e-2, 1e-6, 1e-10]
 SCALE_LETTERS = [1.0, 1e-3, 1e3]
@@ -386,6 +387,7 @@ H    P
       0.8000000              1.0000000
 """
 BOND_SCALE = [1.0, 0.85, 1.25, 1.6]
+CMAX_SMALL = [1, 2, 3]
 
 # name -> (atoms as (symbol, xyz) at scale 1, basis, charge, spin); coordinates in Angstrom
 MOLECULES = {
@@ -414,25 +416,34 @@ def build_mol(name, scale):
     return gto.M(atom=atom, basis=basis, charge=charge, spin=spin, verbose=0, unit="Angstrom")
 
 
-def mol_case(name, scale, thr):
+def mol_case(name, scale, thr, cmax=10):
+    """One call of the real chunked_cholesky.  cmax sets the routine's preallocated buffer (cmax*nao vectors).
+    Contract: a call may raise when the buffer cannot hold the vectors the threshold needs, but whatever it
+    RETURNS must reproduce the ERI matrix to the threshold; with a sufficient buffer it must not raise."""
     from ad_afqmc import pyscf_interface as pi
 
     mol = build_mol(name, scale)
     nao = mol.nao_nr()
     eri = mol.intor("int2e").reshape(nao * nao, nao * nao)
     shells = [(int(mol.bas_angular(i)), int(mol.bas_nctr(i))) for i in range(mol.nbas)]
+    base = dict(molecule=name, bond_scale=scale, threshold=thr, cmax=cmax, buffer=cmax * nao, nao=nao, shells=shells)
     try:
-        L = np.asarray(pi.chunked_cholesky(mol, max_error=thr))
+        L = np.asarray(pi.chunked_cholesky(mol, max_error=thr, cmax=cmax))
     except Exception as e:
-        return "raises", dict(molecule=name, bond_scale=scale, threshold=thr, nao=nao, n_vectors=0, shells=shells, exception=repr(e)[:300])
+        need = needed_vectors(eri, thr)
+        # the loop always prepares one candidate beyond the accepted vectors: need+1 rows; +-2 rows of round-off grey zone
+        if need + 1 > cmax * nao - 2:
+            return "", dict(base, n_vectors=0, raised=True, n_vectors_needed=need, exception=repr(e)[:120])
+        return "raises-although-buffer-sufficient", dict(base, n_vectors=0, n_vectors_needed=need, exception=repr(e)[:300])
     rec = L.T @ L
     err = np.abs(eri - rec)
     tol = thr + ROUND * elem_scale(eri)
     bad = not (L.ndim == 2 and L.shape[1] == nao * nao and np.all(np.isfinite(rec)) and np.all(err <= tol))
     worst = np.unravel_index(np.argmax(err), err.shape)
-    det = dict(molecule=name, bond_scale=scale, threshold=thr, nao=nao, n_vectors=int(L.shape[0]),
-               max_err=float(err.max()), worst_element=[int(x) for x in worst], eri_max=float(np.abs(eri).max()),
-               shells=shells)
+    det = dict(base, n_vectors=int(L.shape[0]), raised=False,
+               max_err=float(err.max()), worst_element=[int(x) for x in worst], eri_max=float(np.abs(eri).max()))
+    if bad and L.shape[0] >= cmax * nao - 1:
+        return "truncated-factorisation-returned-when-buffer-too-small", dict(det, n_vectors_needed=needed_vectors(eri, thr))
     return ("reconstruction-error>threshold" if bad else ""), det
 
 
@@ -440,6 +451,15 @@ def job_mol(cfg):
     res = Result()
     for scale in cfg["scales"]:
         nvec = []
+        # the buffer axis: cmax*nao preallocated vectors, from far too small to the default
+        for cmax in cfg.get("cmaxs", CMAX_SMALL):
+            for thr in THRESHOLDS:
+                bad, det = mol_case(cfg["mol"], scale, thr, cmax)
+                res.add(states=1, transitions=1, evaluations=det["nao"] ** 4, traces=1)
+                res.guard("chunked_small_buffer_raised" if det["raised"] else "chunked_small_buffer_returned")
+                if bad:
+                    res.violation("pyscf_interface.chunked_cholesky:" + bad,
+                                  dict(part="mol", mol=cfg["mol"], scale=scale, threshold=thr, cmax=cmax), det)
         for thr in THRESHOLDS:
             bad, det = mol_case(cfg["mol"], scale, thr)
             res.add(states=1, transitions=1, evaluations=det["nao"] ** 4, traces=1)
@@ -748,8 +768,9 @@ def run(ctx):
                 "terms, de-duplicated) x every congruence scaling D in {1e-3,1,1e3}^n (+ one generic mild scaling for the "
                 "JAX routine) x thresholds {1e-2,1e-6,1e-10} (NumPy routine; the unscaled matrices additionally as int64 and float32 arrays) / n_chol = rank (JAX routine) x every "
                 "symmetric basis tangent (jvp vs central differences on an h-ladder, Richardson-extrapolated; at n = 4 the "
-                "derivative is taken for the scalings {1, mild, graded} only); molecules x bond scalings x thresholds for "
-                "chunked_cholesky against mol.intor('int2e'); the real propagate_phaseless_ad_1 (spy on the Cholesky call) for "
+                "derivative is taken for the scalings {1, mild, graded} only); molecules x bond scalings x thresholds x buffer "
+                "sizes cmax in {1,2,3,10} for chunked_cholesky against mol.intor('int2e') (it may raise iff the buffer cannot hold the "
+                "needed vectors; whatever it returns must be within the threshold); the real propagate_phaseless_ad_1 (spy on the Cholesky call) for "
                 "every n_chol-subset of the symmetric unit basis and dense sets as Cholesky vectors, every unit tensor tangent "
                 "(finite) and every 8-fold symmetric basis tangent (vs central differences); a state is one (routine, matrix, "
                 "scaling, threshold | tangent); non-trivial & distinct = distinct non-zero Gram matrices / molecules / ERI letters")
@@ -792,7 +813,8 @@ def run(ctx):
     ctx.pmap(job, [dict(part="np", n=n, shard=(0, len(gram_catalogue(n))), seed=seed) for n in (1, 2)], workers=1)
     ctx.pmap(job, jobs)
     ctx.require_guard("jvp_compared_rank-deficient", "jvp_compared_full-rank", "np_rank1_of_2", "np_int64_input_cases", "np_float32_input_cases", "chunked_cases",
-                      "chunked_with_p_or_d_shells", "chunked_with_general_contraction", "chunked_threshold_changes_vector_count",
+                      "chunked_with_p_or_d_shells", "chunked_with_general_contraction", "chunked_threshold_changes_vector_count", "chunked_small_buffer_raised", "chunked_small_buffer_returned",
+                      "np_returned_full_size",
                       "sampler_cases", "sampler_jvp_compared_nonzero")
 
 
@@ -820,7 +842,7 @@ def replay(case):
              and (case["what"] == "exact" or x["case"].get("tangent") == list(case["tangent"]))]
         return (len(v) > 0, v[0]["detail"] if v else {})
     if part == "mol":
-        bad, det = mol_case(case["mol"], case["scale"], case["threshold"])
+        bad, det = mol_case(case["mol"], case["scale"], case["threshold"], case.get("cmax", 10))
         return bool(bad), det
     if part == "sampler":
         if case.get("mol"):
